@@ -89,6 +89,48 @@ def check_pair(cx, chk, inst):
     return traced, untraced
 
 
+def check_trace_panics(cx, chk):
+    """Tracing never panics: every panic-capable construct in the functions the tracer implementations reach is discharged
+    (the inventory and its justifications are C04.panic's; here restricted to the tracing side)."""
+    from . import c04
+    rt = cx.runtime
+    roots = [p for p, f in rt.fns.items() if "mir" in f and ("Tracer" in p) and last(p) in ("print_trace_start", "print_trace_result", "print_informative", "new")]
+    seen = set()
+    work = list(roots)
+    while work:
+        p = work.pop()
+        if p in seen or p not in rt.fns or "mir" not in rt.fns[p]:
+            continue
+        seen.add(p)
+        b = cx.body(rt, p)
+        for _, t in b.calls():
+            f = t["func"]
+            if f.get("indirect"):
+                continue
+            q = f.get("resolved") or f["path"]
+            if q in rt.fns and q not in seen:
+                work.append(q)
+        for q in rt.fns:
+            if q.startswith(p + "::{closure") and q not in seen:
+                work.append(q)
+    n = 0
+    for p in sorted(seen):
+        b = cx.body(rt, p)
+        for i, kind, t in c04.panic_sites(b):
+            if t["k"] == "call" and t.get("fn_exp") and kind.startswith("diverges"):
+                continue
+            n += 1
+            key = (c04.fn_key(p), kind)
+            tag = "runtime %s %s" % (key[0], kind)
+            if key in c04.RUNTIME_PANIC_TABLE:
+                chk.ok("C19.panic", tag, {"fn": key[0], "kind": kind, "reason": c04.RUNTIME_PANIC_TABLE[key]})
+            else:
+                chk.violation("C19.panic", tag, "panic-capable construct (%s) in %s, which the tracer reaches: parsing with tracing could panic where the plain "
+                              "parse returns a result" % (kind, key[0]), cx.site(b, i))
+    chk.ok("C19.panic", "tracer-reachable functions", {"functions": len(seen), "panic_capable_sites": n})
+    chk.floor("C19.panic", "functions reachable from the tracers", len(seen), 3)
+
+
 def check_level(cx, chk, crate, label):
     impls = common.impl_methods(crate, "ParseTracer")
     if not impls:
@@ -280,6 +322,7 @@ def run(cx, chk):
                 chk.ok("C19.pair", "%s untraced = @char/@extern" % inst.name, {"instance": inst.name, "untraced": want})
     chk.floor("C19.pair", "traced rule wrappers", total, 259)
     chk.extra["untraced_rule_fns"] = untraced_total
+    check_trace_panics(cx, chk)
     check_level(cx, chk, cx.runtime, "runtime")
     if cx.runtime_nodefault is not None:
         check_level(cx, chk, cx.runtime_nodefault, "runtime(no-default-features)")
